@@ -202,6 +202,29 @@ class Program:
             self.fns[key] = f
         self.allocs.update(allocs)
 
+    def impl_self_type(self, item):
+        """Self type of the anonymous `<impl at file:l:c: l:c>` block an item was printed under,
+        recovered from `<T as Trait>::` references inside that block's bodies."""
+        m = re.search(r"<impl at [^>]+>", item.name)
+        if not m:
+            return None
+        key = (getattr(item, "crate", None), m.group(0))
+        cache = self.__dict__.setdefault("_impl_self", {})
+        if key not in cache:
+            import collections
+            cnt = collections.Counter()
+            for k, f in self.fns.items():
+                if m.group(0) in k and getattr(f, "crate", None) == key[0]:
+                    for stmts, term in f.blocks.values():
+                        for t in stmts + [term]:
+                            for mm in re.finditer(r"<(f32|f64|[iu](?:8|16|32|64|128|size)) as ", t):
+                                cnt[mm.group(1)] += 1
+                    for _, ty in f.args:
+                        if ty in ("f32", "f64"):
+                            cnt[ty] += 1
+            cache[key] = cnt.most_common(1)[0][0] if cnt else None
+        return cache[key]
+
     def lookup(self, name):
         """Find an item by crate-qualified path (generic arguments ignored).
 
@@ -210,8 +233,23 @@ class Program:
         because the MIR printer abbreviates impl blocks.
         """
         n = strip_generics(name)
+        mm = re.fullmatch(r"([\w:]+)::(\w+)::<(\w+)>", name.strip())
+        if mm and ("mono::%s__%s" % (mm.group(2), mm.group(3))) in self.fns:
+            return self.fns["mono::%s__%s" % (mm.group(2), mm.group(3))]
         if n in self.fns:
             return self.fns[n]
+        # `<T as path::Trait>::method` -> shim wrapper `tm::tm__T__Trait__method`
+        m = re.fullmatch(r"<(\w+) as ([\w:]+)>::(\w+)", n)
+        if m:
+            key = "tm::tm__%s__%s__%s" % (m.group(1), m.group(2).split("::")[-1], m.group(3))
+            if key in self.fns:
+                return self.fns[key]
+        # generic free function instantiated at one float/int type: `path::f::<T>` -> shim `mono::f__T`
+        m = re.fullmatch(r"([\w:]+)::(\w+)::<(\w+)>", name.strip())
+        if m:
+            key = "mono::%s__%s" % (m.group(2), m.group(3))
+            if key in self.fns:
+                return self.fns[key]
         first = n.split("::")[0]
         if first in ("core", "std", "alloc") or n.startswith("<"):
             return None
@@ -223,6 +261,13 @@ class Program:
         # shim-local item (no crate prefix)
         if len(parts) == 1:
             return self.fns.get(n)
+        # inherent methods are printed as `mod::<impl at file:l:c: l:c>::method` in the defining
+        # crate but as `mod::Type::method` / `mod::<impl Type>::method` at call sites
+        last = parts[-1]
+        c3 = [k for k in self.fns if k.split("::")[0] == first and k.endswith("::" + last) and "<impl at " in k
+              and k.split("::")[1] == parts[1]]
+        if len(c3) == 1 and len(parts) >= 3:
+            return self.fns[c3[0]]
         # promoted / nested items of generic fns: `a::b::<T>::promoted[0]` vs `a::b::promoted[0]`
         for i in range(1, len(parts) - 1):
             suf = "::".join(parts[i:])
@@ -416,7 +461,9 @@ class Executor:
         lhs, rhs = m
         if lhs.startswith("discriminant("):
             raise Unsupported("SetDiscriminant")
+        self._want_ty = fr.fn.locals.get(lhs) if re.fullmatch(r"_\d+", lhs) else None
         val = self._rvalue(st, fr, rhs)
+        self._want_ty = None
         place = self._place(st, fr, lhs)
         self._write(st, place, val, fr)
 
@@ -623,6 +670,8 @@ class Executor:
             fn = self.p.lookup(cr + "::" + callee)
         if fn is None or fn.kind != "fn":
             raise Unsupported("call to unmodelled function: " + callee)
+        if any(re.fullmatch(r"[A-Z]\w{0,3}|Self", ty) for _, ty in fn.args) or re.search(r"::<[A-Z]\w*>", callee) and "mono::" not in fn.name and fn.name.split("::")[-1] + "::<" in callee and False:
+            raise Unsupported("call to generic function body: " + callee)
         self._push(st, fn, args, dest, retbb)
         return None
 
@@ -847,6 +896,9 @@ class Executor:
                 nm, v = f.split(": ", 1)
                 fields.append(self._const(st, v))
             return Agg(fields, None, m.group(1))
+        m = re.fullmatch(r"([\w:]+)::(\w+)::(\w+)", c)
+        if m and m.group(2) in src_enums() and m.group(3) in src_enums()[m.group(2)]:
+            return Agg([], m.group(3), m.group(1) + "::" + m.group(2))
         if c == "()":
             return UNIT
         m = re.fullmatch(r"\((.*)\)", c)
@@ -859,6 +911,24 @@ class Executor:
             item = self.p.lookup(cr + "::" + c)
         if item is not None and item.kind in ("const", "static", "promoted"):
             return self._eval_const_item(st, item)
+        m = re.fullmatch(r"<(\w+) as ([\w:]+)>::(\w+)::promoted\[(\d+)\]", c)
+        if m and item is None:
+            # promoted constant of a trait-impl method: the defining crate prints the impl block
+            # anonymously, so pick the candidate whose type is the type of the destination local
+            crate_ = m.group(2).split("::")[0]
+            suf = "::%s::promoted[%s]" % (m.group(3), m.group(4))
+            want = getattr(self, "_want_ty", None)
+            cands = [f for k, f in self.p.fns.items() if k.split("::")[0] == crate_ and k.endswith(suf) and "<impl at " in k]
+            if want is not None:
+                norm = lambda t: re.sub(r"\s+", "", t).replace("std::", "core::")
+                c2 = [f for f in cands if norm(f.ret_ty) == norm(want)]
+                if c2:
+                    cands = c2
+            if len(cands) > 1:
+                cands = [f for f in cands if self.p.impl_self_type(f) == m.group(1)]
+            if len(cands) == 1:
+                return self._eval_const_item(st, cands[0])
+            raise Unsupported("ambiguous promoted constant %s (%d candidates for type %s)" % (c, len(cands), want))
         if re.search(r"PhantomData|::\{closure", c) or re.fullmatch(r"[\w:<>, ]+", c) and item is None and c[0].isupper():
             return Opaque("zst " + c)
         raise Unsupported("constant: " + c)
@@ -945,7 +1015,7 @@ class Executor:
         if r.startswith("discriminant("):
             v = self._read(st, self._place(st, fr, r[13:-1]), fr)
             if isinstance(v, Agg) and v.variant is not None:
-                return bv("isize", ENUM_DISCR[v.variant])
+                return bv("isize", enum_discr(v.ty, v.variant))
             raise Unsupported("discriminant of %r" % (v,))
         if r.startswith("&raw const ") or r.startswith("&raw mut "):
             body = re.sub(r"^\(fake\w*\)\s*", "", r.split(" ", 2)[2].strip())
@@ -980,10 +1050,10 @@ class Executor:
                 fields.append(self._operand(st, fr, v))
             return Agg(fields, None, m.group(1))
         m = re.match(r"([\w:<>&' ,\[\]]+?)::(\w+)\((.*)\)$", r)
-        if m and m.group(2) in ENUM_DISCR:
+        if m and (m.group(2) in ENUM_DISCR or m.group(1).split("<")[0].split("::")[-1] in src_enums()):
             return Agg([self._operand(st, fr, x) for x in split_top(m.group(3))], m.group(2), m.group(1))
         m = re.match(r"([\w:<>&' ,\[\]]+?)::(\w+)$", r)
-        if m and m.group(2) in ENUM_DISCR:
+        if m and (m.group(2) in ENUM_DISCR or m.group(1).split("<")[0].split("::")[-1] in src_enums()):
             return Agg([], m.group(2), m.group(1))
         raise Unsupported("rvalue: " + r)
 
@@ -1022,6 +1092,8 @@ class Executor:
             if isinstance(v, (Ref, Slice)):
                 return v
         if kind == "Transmute":
+            if isinstance(v, Int) and ty in ("f32", "f64") and INT_TYPES[v.ty][0] == int(ty[1:]):
+                return Int("u" + ty[1:], v.t)     # floats are carried as their bit patterns
             if isinstance(v, (Ref, Slice, Opaque)):
                 return Opaque("transmuted pointer")
             if isinstance(v, Int) and ty in INT_TYPES and INT_TYPES[ty][0] == INT_TYPES[v.ty][0]:
@@ -1187,6 +1259,70 @@ BINOPS = {"Add", "Sub", "Mul", "Div", "Rem", "BitAnd", "BitOr", "BitXor", "Shl",
 
 ENUM_DISCR = {"None": 0, "Some": 1, "Ok": 0, "Err": 1, "Included": 0, "Excluded": 1, "Unbounded": 2,
               "Less": -1, "Equal": 0, "Greater": 1}
+
+
+_SRC_ENUMS = None
+
+
+def src_enums():
+    """Variant order of the (field-less-discriminant) enums defined in /repo's crates, read from
+    the current sources: MIR prints variants by name but switches on their indices."""
+    global _SRC_ENUMS
+    if _SRC_ENUMS is None:
+        import glob
+        import os
+        repo = os.environ.get("VERIF_REPO", "/repo")
+        out = {}
+        for path in glob.glob(os.path.join(repo, "lexical*", "src", "*.rs")):
+            try:
+                txt = open(path).read()
+            except OSError:
+                continue
+            for m in re.finditer(r"\benum\s+(\w+)\s*\{(.*?)\n\}", txt, re.S):
+                body = re.sub(r"//[^\n]*", "", m.group(2))
+                body = re.sub(r"#\[[^\]]*\]", "", body)
+                names = []
+                depth = 0
+                cur = ""
+                for ch in body:
+                    if ch in "({[":
+                        depth += 1
+                    elif ch in ")}]":
+                        depth -= 1
+                    elif ch == "," and depth == 0:
+                        names.append(cur)
+                        cur = ""
+                        continue
+                    if depth == 0 or ch in "({[":
+                        cur += ch
+                names.append(cur)
+                vs = []
+                ok = True
+                for n in names:
+                    n = n.strip()
+                    if not n:
+                        continue
+                    mm = re.match(r"(\w+)", n)
+                    if "=" in n:
+                        ok = False
+                    vs.append(mm.group(1))
+                if ok and vs:
+                    out.setdefault(m.group(1), vs)
+        _SRC_ENUMS = out
+    return _SRC_ENUMS
+
+
+def enum_discr(ty, variant):
+    if variant in ENUM_DISCR and (ty is None or ty.split("::")[0] in ("core", "std", "Option", "Result", "Bound") or ty.split("<")[0].split("::")[-1] in ("Option", "Result", "Bound", "Ordering")):
+        return ENUM_DISCR[variant]
+    if ty:
+        name = ty.split("<")[0].split("::")[-1]
+        vs = src_enums().get(name)
+        if vs and variant in vs:
+            return vs.index(variant)
+    if variant in ENUM_DISCR:
+        return ENUM_DISCR[variant]
+    raise Unsupported("discriminant of %s::%s" % (ty, variant))
 
 
 def _split_assign(s):
@@ -1484,11 +1620,23 @@ def _i_num_method(ex, st, fr, callee, args):
     raise Unsupported("core::num method " + meth)
 
 
+def _i_range_incl_contains(ex, st, fr, callee, args):
+    r, x = args
+    rng = ex._read(st, r.place) if isinstance(r, Ref) else r
+    v = ex._read(st, x.place) if isinstance(x, Ref) else x
+    lo, hi = rng.fields[0], rng.fields[1]
+    signed = INT_TYPES[v.ty][1]
+    ge = (v.t >= lo.t) if signed else z3.UGE(v.t, lo.t)
+    le = (v.t <= hi.t) if signed else z3.ULE(v.t, hi.t)
+    return Int("bool", simp(z3.And(ge, le)))
+
+
 def _i_identity(ex, st, fr, callee, args):
     return args[0]
 
 
 DEFAULT_INTRINSICS = {
+    r"(core|std)::ops::RangeInclusive::<\w+>::contains::<\w+>|(core|std)::ops::RangeInclusive::contains": _i_range_incl_contains,
     r"(core|std)::num::<impl \w+>::\w+": _i_num_method,
     r"<(core|std)::ops::Range<\w+> as (core|std)::iter::IntoIterator>::into_iter": _i_identity,
     r"<\[\w+\] as (core|std)::ops::Index(Mut)?<(core|std)::ops::Range\w*(<usize>)?>>::index(_mut)?": _i_slice_index,
@@ -1496,8 +1644,8 @@ DEFAULT_INTRINSICS = {
     r"<(std|core)::ops::Range<\w+> as (std|core)::iter::Iterator>::next": _i_range_next,
     r"(core|std)::intrinsics::ctlz|ctlz|ctlz_nonzero|(core|std)::intrinsics::ctlz_nonzero": _i_ctlz,
     r"(core|std)::intrinsics::cttz|cttz|cttz_nonzero": _i_cttz,
-    r"core::slice::<impl \[\w+\]>::get_unchecked": _i_get_unchecked,
-    r"core::slice::<impl \[\w+\]>::get_unchecked_mut": _i_get_unchecked,
+    r"core::slice::<impl \[.*?\]>::get_unchecked": _i_get_unchecked,
+    r"core::slice::<impl \[.*?\]>::get_unchecked_mut": _i_get_unchecked,
     r"(core|std)::intrinsics::cold_path|cold_path": _i_cold,
     r"(core|std)::ops::RangeInclusive::new": _i_range_incl_new,
     r"(core|std)::intrinsics::rotate_right|rotate_right": _i_rotr,
